@@ -956,4 +956,12 @@ theorem ulist_refines {s v p m} {e : Shape} {vs : List Val} (F : Focus s v p (.u
     exact ⟨m, rfl, F.same, rfl, rfl⟩
   | _ => unfold Refines; simp [Spec.applyNode, applyAt]
 
+/-- Non-vacuity of the hypotheses of `ulist_refines`: an `UnsizedList<List<u8, u8>>` as a struct field. -/
+example : ∃ (s : Shape) (v : Val) (p : List Step) (e : Shape) (vs : List Val) (m : Mem),
+    Focus s v p (.ulist e) (.useq vs) m ∧ Calm m ∧ vs.length = 2 :=
+  ⟨.struct [.pod 1] [.ulist (.list (.pod 1) 1)], .record [9] [.useq [.seq [[1], [2]], .seq []]], [.field 0],
+    .list (.pod 1) 1, [.seq [[1], [2]], .seq []],
+    ⟨encode (.struct [.pod 1] [.ulist (.list (.pod 1) 1)]) (.record [9] [.useq [.seq [[1], [2]], .seq []]]), 64, 0, []⟩,
+    ⟨⟨⟨true, false, by decide⟩, by decide, by decide⟩, rfl, rfl⟩, ⟨rfl, by decide, by decide⟩, rfl⟩
+
 end Unsized.Machine
